@@ -3,6 +3,7 @@ package main
 // Two registries linked to each other through harness-controlled transports.
 
 import (
+	"sync/atomic"
 	"context"
 	"errors"
 	"io"
@@ -15,6 +16,7 @@ import (
 type HookEvent struct {
 	Kind     string // reg.connect reg.disconnect link.connect link.disconnect
 	RemoteID string
+	ReadsOpen int // transport reads of this side that had been called and had not returned when the notification came (message API)
 }
 
 type Side[T any] struct {
@@ -25,6 +27,7 @@ type Side[T any] struct {
 	Cancel  context.CancelFunc
 	LinkErr chan error // receives Link's return value
 
+	readsOpen int64 // atomic
 	mu      sync.Mutex
 	hooks   []HookEvent
 	connect chan string
@@ -32,7 +35,7 @@ type Side[T any] struct {
 
 func (s *Side[T]) hook(kind, id string) {
 	s.mu.Lock()
-	s.hooks = append(s.hooks, HookEvent{kind, id})
+	s.hooks = append(s.hooks, HookEvent{kind, id, int(atomic.LoadInt64(&s.readsOpen))})
 	s.mu.Unlock()
 	if kind == "reg.connect" {
 		select {
@@ -192,7 +195,9 @@ func (p *Pair[T]) link(a, b *Side[T]) error {
 			}
 			rd := func(kind string, q *Queue) func() (T, error) {
 				return func() (T, error) {
+					atomic.AddInt64(&s.readsOpen, 1)
 					b, err := q.Get()
+					atomic.AddInt64(&s.readsOpen, -1)
 					if err != nil {
 						return *new(T), err
 					}
